@@ -2061,4 +2061,209 @@ theorem sub_components (a b : MF) (A E L : Option Modes) (T : List Transits) (P 
     | peri c d => exact Or.inl ((pe c d).mp hx)
 
 
+/-! ### `contain_subset`, `least_number_of_transformations` -/
+
+theorem setEq_iff {α : Type} [BEq α] [LawfulBEq α] (a b : List α) : setEq a b = true ↔ ∀ x, x ∈ a ↔ x ∈ b := by
+  simp only [setEq, Bool.and_eq_true, List.all_eq_true, List.contains_iff_mem]
+  constructor
+  · rintro ⟨h1, h2⟩ x; exact ⟨h1 x, h2 x⟩
+  · intro h; exact ⟨fun x hx => (h x).mp hx, fun x hx => (h x).mpr hx⟩
+
+theorem evalModes_ok (k : ModeKind) (m : Option Modes) (l : List String) (h : evalModes k m = .ok l) :
+    l = optExpand k.wildcard m := by
+  cases m with
+  | none => simp [evalModes] at h
+  | some m' =>
+    cases m' with
+    | wild => simp [evalModes, Modes.eval] at h; simp [optExpand, Modes.expand, h]
+    | names l' => simp [evalModes, Modes.eval] at h; simp [optExpand, Modes.expand, h]
+    | bare s => simp [evalModes, Modes.eval] at h
+
+theorem subsetModes_spec (k : ModeKind) (l r : Option Modes) (v : Bool) (h : subsetModes k l r = .ok v) :
+    v = true ↔ ∀ x, x ∈ optExpand k.wildcard r → x ∈ optExpand k.wildcard l := by
+  unfold subsetModes at h
+  simp only [bind, Except.bind] at h
+  cases hr : evalModes k r with
+  | error e => simp [hr] at h
+  | ok rl =>
+    have er := evalModes_ok k r rl hr
+    simp only [hr] at h
+    by_cases hemp : rl.isEmpty = true
+    · simp only [hemp, if_true, pure, Except.pure, Except.ok.injEq] at h
+      subst h
+      have : rl = [] := by simpa using hemp
+      rw [← er, this]; simp
+    · simp only [hemp, Bool.false_eq_true, if_false] at h
+      cases hl : evalModes k l with
+      | error e => simp [hl] at h
+      | ok ll =>
+        have el := evalModes_ok k l ll hl
+        simp only [hl, pure, Except.pure, Except.ok.injEq] at h
+        subst h
+        rw [← er, ← el]
+        simp [List.all_eq_true]
+
+
+/-- what the three ingredients of `contain_subset` mean on atoms -/
+theorem containParts_spec (a b : MF) (s d m : Bool) (h : a.containParts b = .ok (s, d, m)) :
+    (s = true ↔ (∀ x, Atom.abs x ∈ b.atoms → Atom.abs x ∈ a.atoms) ∧ (∀ x, Atom.elim x ∈ b.atoms → Atom.elim x ∈ a.atoms) ∧
+        subsetTransits a b = .ok true ∧ (∀ x, Atom.lag x ∈ b.atoms → Atom.lag x ∈ a.atoms)) ∧
+    (d = true ↔ ∀ c, Atom.peri c "DRUG" ∈ b.atoms → Atom.peri c "DRUG" ∈ a.atoms) ∧
+    (m = true ↔ ∀ c, Atom.peri c "MET" ∈ b.atoms → Atom.peri c "MET" ∈ a.atoms) := by
+  unfold MF.containParts at h
+  simp only [bind, Except.bind] at h
+  cases ht : subsetTransits a b with
+  | error e => simp [ht] at h
+  | ok tr =>
+    cases h1 : extractPeripherals a.peripherals with
+    | error e => simp [ht, h1] at h
+    | ok r1 =>
+      cases h2 : extractPeripherals b.peripherals with
+      | error e => simp [ht, h1, h2] at h
+      | ok r2 =>
+        obtain ⟨lm, ld⟩ := r1
+        obtain ⟨rm, rd⟩ := r2
+        obtain ⟨_, m1, d1⟩ := extractPeripherals_spec _ _ h1
+        obtain ⟨_, m2, d2⟩ := extractPeripherals_spec _ _ h2
+        simp only [ht, h1, h2] at h
+        simp only [mem_atoms_abs, mem_atoms_elim, mem_atoms_lag, mem_atoms_peri]
+        simp only at m1 d1 m2 d2
+        have hd : (rd.all (ld.contains ·) = true ↔ ∀ c, (∃ p, p ∈ b.peripherals ∧ c ∈ p.counts ∧ "DRUG" ∈ p.modes.expand Gen.peripheralsModesWildcard) →
+            (∃ p, p ∈ a.peripherals ∧ c ∈ p.counts ∧ "DRUG" ∈ p.modes.expand Gen.peripheralsModesWildcard)) := by
+          simp only [List.all_eq_true, List.contains_iff_mem, ← d1, ← d2]
+        have hm : (rm.all (lm.contains ·) = true ↔ ∀ c, (∃ p, p ∈ b.peripherals ∧ c ∈ p.counts ∧ "MET" ∈ p.modes.expand Gen.peripheralsModesWildcard) →
+            (∃ p, p ∈ a.peripherals ∧ c ∈ p.counts ∧ "MET" ∈ p.modes.expand Gen.peripheralsModesWildcard)) := by
+          simp only [List.all_eq_true, List.contains_iff_mem, ← m1, ← m2]
+        cases ha : subsetModes absorptionKind a.absorption b.absorption with
+        | error e => simp [ha] at h
+        | ok va =>
+          have sa := subsetModes_spec _ _ _ _ ha
+          simp only [ha] at h
+          cases va
+          · simp only [Bool.not_false, if_true, pure, Except.pure, Except.ok.injEq, Prod.mk.injEq] at h
+            obtain ⟨rfl, rfl, rfl⟩ := h
+            refine ⟨⟨(fun hf => by cases hf), (fun hf => absurd (sa.mpr hf.1) (by simp))⟩, hd, hm⟩
+          · have sa' := sa.mp rfl
+            simp only [Bool.not_true, Bool.false_eq_true, if_false] at h
+            cases he : subsetModes eliminationKind a.elimination b.elimination with
+            | error e => simp [he] at h
+            | ok ve =>
+              have se := subsetModes_spec _ _ _ _ he
+              simp only [he] at h
+              cases ve
+              · simp only [Bool.not_false, if_true, pure, Except.pure, Except.ok.injEq, Prod.mk.injEq] at h
+                obtain ⟨rfl, rfl, rfl⟩ := h
+                refine ⟨⟨(fun hf => by cases hf), (fun hf => absurd (se.mpr hf.2.1) (by simp))⟩, hd, hm⟩
+              · have se' := se.mp rfl
+                simp only [Bool.not_true, Bool.false_eq_true, if_false] at h
+                cases tr
+                · simp only [Bool.not_false, if_true, pure, Except.pure, Except.ok.injEq, Prod.mk.injEq] at h
+                  obtain ⟨rfl, rfl, rfl⟩ := h
+                  refine ⟨⟨(fun hf => by cases hf), (fun hf => by have := hf.2.2.1; cases this)⟩, hd, hm⟩
+                · simp only [Bool.not_true, Bool.false_eq_true, if_false] at h
+                  cases hl : subsetModes lagtimeKind a.lagtime b.lagtime with
+                  | error e => simp [hl] at h
+                  | ok vl =>
+                    have sl := subsetModes_spec _ _ _ _ hl
+                    simp only [hl, pure, Except.pure, Except.ok.injEq, Prod.mk.injEq] at h
+                    obtain ⟨rfl, rfl, rfl⟩ := h
+                    refine ⟨⟨(fun hf => ⟨sa', se', rfl, sl.mp hf⟩), (fun hf => sl.mpr hf.2.2.2)⟩, hd, hm⟩
+
+theorem containSubset_parts (a b : MF) (ms v : Bool) (h : a.containSubset b ms = .ok v) :
+    ∃ s d m, a.containParts b = .ok (s, d, m) ∧ v = (s && d && (ms || m)) := by
+  unfold MF.containSubset at h
+  simp only [bind, Except.bind] at h
+  cases hp : a.containParts b with
+  | error e => simp [hp] at h
+  | ok r =>
+    obtain ⟨s, d, m⟩ := r
+    refine ⟨s, d, m, rfl, ?_⟩
+    simp only [hp] at h
+    cases s <;> cases ms <;> cases d <;> cases m <;> simp_all [pure, Except.pure]
+
+/-! ### least_number_of_transformations: kinds of the returned keys -/
+
+theorem modeKeys_shape (k : ModeKind) (m : Option Modes) (ks : List Key) (h : modeKeys k m = .ok ks) :
+    ∀ key, key ∈ ks → key.length = 2 := by
+  cases m with
+  | none => simp [modeKeys] at h; subst h; intro _ hk; cases hk
+  | some m' =>
+    cases m' with
+    | bare s => simp [modeKeys] at h
+    | wild =>
+      simp only [modeKeys, Modes.eval] at h
+      split at h
+      · cases h; intro key hk; obtain ⟨x, _, rfl⟩ := List.mem_map.mp hk; rfl
+      · cases h
+    | names l =>
+      simp only [modeKeys, Modes.eval] at h
+      split at h
+      · cases h; intro key hk; obtain ⟨x, _, rfl⟩ := List.mem_map.mp hk; rfl
+      · cases h
+
+theorem lntHelper_shape (k : ModeKind) (l r : Option Modes) (ks : List Key) (h : lntHelper k l r = .ok ks) :
+    ∀ key, key ∈ ks → key.length = 2 := by
+  cases l <;> cases r <;> simp only [lntHelper] at h
+  · cases h; intro _ hk; cases hk
+  · cases h
+  · cases h
+  · simp only [bind, Except.bind] at h
+    split at h
+    · cases h
+    · split at h
+      · cases h
+      · split at h
+        · simp only [pure, Except.pure, Except.ok.injEq] at h; subst h; intro _ hk; cases hk
+        · split at h
+          · cases h
+          · rename_i mk hmk
+            split at h
+            · cases h
+            · rename_i key rest hd
+              simp only [pure, Except.pure, Except.ok.injEq] at h
+              subst h
+              intro key' hk
+              simp only [List.mem_singleton] at hk
+              subst hk
+              have : key' ∈ dedup mk := by rw [hd]; exact List.mem_cons_self
+              exact modeKeys_shape k _ mk hmk key' ((mem_dedup _ _).mp this)
+
+theorem lntTransits_shape (a b : MF) (ks : List Key) (h : lntTransits a b = .ok ks) :
+    ∀ key, key ∈ ks → key.kind = "TRANSITS" := by
+  unfold lntTransits at h
+  simp only [bind, Except.bind] at h
+  split at h
+  · cases h
+  · split at h
+    · split at h
+      · cases h
+      · split at h
+        · simp only [pure, Except.pure, Except.ok.injEq] at h; subst h
+          intro key hk; simp at hk; subst hk; rfl
+        · split at h
+          · simp only [pure, Except.pure, Except.ok.injEq] at h; subst h
+            intro key hk; simp at hk; subst hk; rfl
+          · simp only [pure, Except.pure, Except.ok.injEq] at h; subst h; intro _ hk; cases hk
+    · simp only [pure, Except.pure, Except.ok.injEq] at h; subst h; intro _ hk; cases hk
+
+theorem lntPeripherals_drug_shape (a b : MF) (ks : List Key) (h : lntPeripherals a b false = .ok ks) :
+    ∀ key, key ∈ ks → key.length = 2 := by
+  unfold lntPeripherals at h
+  simp only [bind, Except.bind] at h
+  split at h
+  · cases h
+  · split at h
+    · cases h
+    · split at h
+      · cases h
+      · simp only [Bool.false_eq_true, if_false, pure, Except.pure, Except.ok.injEq] at h
+        subst h
+        intro key hk
+        split at hk
+        · split at hk
+          · cases hk
+          · simp at hk; subst hk; rfl
+        · cases hk
+
+
 end Pharmpy.C18
